@@ -73,6 +73,12 @@ def tok2_classifier(pkey, nontrivial_rule, dict_panic_is_failure=True):
         if flags.get(pkey) == "0":
             info["prop_fail"] = pkey + "-predicate"
             info["why"] = f"property predicate {pkey} is false on the implementation's output"
+        elif pkey == "C13" and [x for x in impl.split(" ; ") if " counts " in x or x.endswith("panic")] != \
+                [x for x in mobs.split(" ; ") if " counts " in x or x.endswith("panic")]:
+            # decider: the model's counter equals the number of connection-cost evaluations per id
+            # (theorems counts_eq_evaluations, counts_history_independent)
+            info["prop_fail"] = "counts-differ-from-evaluations"
+            info["why"] = "the connection-id counter differs from the number of connection-cost evaluations (or update/probs panicked)"
         elif pkey == "C03" and flags.get("C03A") == "0":
             info["prop_fail"] = "astral-char-takes-entry-0-category"
             info["why"] = "a character above U+FFFF was given the category of U+0000 instead of DEFAULT"
